@@ -289,6 +289,64 @@ func c17(r *core.Run) {
 	// ... and the converse: a proof record is deleted only together with its entry in the file's list (the function
 	// assigns the list) or together with the file itself (the function deletes the file record)
 	nDel := 0
+	inScope := map[*ssa.Function]bool{}
+	for _, fn := range funcs {
+		inScope[fn] = true
+	}
+	entrySet := map[*ssa.Function]bool{}
+	if ehs, err := p.Handlers(); err == nil {
+		for _, h := range ehs {
+			entrySet[h.Fn] = true
+		}
+	}
+	bbE, ebE := p.BlockEntries()
+	for _, f := range append(bbE, ebE...) {
+		entrySet[f] = true
+	}
+	// goesWith: the function assigns a file's prover list or deletes a file record; a helper that does neither (a loop
+	// deleting the records of a list it is handed, a wrapper around the record remover) is judged by its callers
+	var goesWith func(fn *ssa.Function, depth int) (ok, reached bool)
+	goesWith = func(fn *ssa.Function, depth int) (bool, bool) {
+		found := false
+		allInstrs(fn, func(in ssa.Instruction) {
+			if st, ok := in.(*ssa.Store); ok {
+				if fa, ok := st.Addr.(*ssa.FieldAddr); ok && core.FieldName(fa.X.Type(), fa.Field) == "Proofs" && core.TypeName(fa.X.Type()) == "x/storage/types.UnifiedFile" {
+					found = true
+				}
+			}
+		})
+		for _, e2 := range p.Effects(fn) {
+			if effHas(e2, "Delete", stFiles) {
+				found = true
+			}
+		}
+		if found {
+			return true, true
+		}
+		if depth >= 2 {
+			return false, true
+		}
+		n, all := 0, true
+		for _, caller := range p.CG().In[fn] {
+			if !inScope[caller] || caller == fn {
+				continue
+			}
+			okc, reached := goesWith(caller, depth+1)
+			if !reached {
+				continue
+			}
+			n++
+			if !okc {
+				all = false
+			}
+		}
+		if n == 0 {
+			// no caller on a transaction / block path: an entry point of its own would have to do it itself
+			_, isEntry := entrySet[fn]
+			return false, isEntry
+		}
+		return all, true
+	}
 	for _, fn := range funcs {
 		if isAccessorFn(p, fn) || p.IsGenerated(fn) {
 			continue
@@ -301,21 +359,12 @@ func c17(r *core.Run) {
 			if cal, _ := directOpCallee(p, call, "Delete", stProof); cal == nil {
 				continue
 			}
-			nDel++
-			goesWith := false
-			allInstrs(fn, func(in ssa.Instruction) {
-				if st, ok := in.(*ssa.Store); ok {
-					if fa, ok := st.Addr.(*ssa.FieldAddr); ok && core.FieldName(fa.X.Type(), fa.Field) == "Proofs" && core.TypeName(fa.X.Type()) == "x/storage/types.UnifiedFile" {
-						goesWith = true
-					}
-				}
-			})
-			for _, e2 := range p.Effects(fn) {
-				if effHas(e2, "Delete", stFiles) {
-					goesWith = true
-				}
+			okG, reached := goesWith(fn, 0)
+			if !reached {
+				continue // a wrapper nobody calls on a transaction / block path
 			}
-			r.Check(goesWith, "C17/R2", core.FnName(fn)+":proof-record-deleted-with-its-list-entry", p.InstrPos(call), "the function that deletes a proof record also updates the file's prover list or removes the file", "a proof record is deleted while the files that list it keep the entry: a listed prover without a retrievable proof record, holding one of the file's replication slots")
+			nDel++
+			r.Check(okG, "C17/R2", core.FnName(fn)+":proof-record-deleted-with-its-list-entry", p.InstrPos(call), "the function that deletes a proof record (or each of its callers) also updates the file's prover list or removes the file", "a proof record is deleted while the files that list it keep the entry: a listed prover without a retrievable proof record, holding one of the file's replication slots")
 		}
 	}
 	r.Floor("C17/R2", nDel, 1, "proof-record delete sites")
